@@ -12,7 +12,8 @@ from scenario import phasing as PH, vcf as V
 
 LEVEL = "other"
 LEVEL_TEXT = ("Deductive (Python, vcgen): hamming, switch_encoding, complement and compute_switch_flips are verified against their definitions for all strings "
-              "(loop invariant 2*flips + switches + run == mismatches of the switch encodings so far), with the labelling-invariance lemma se(complement(s)) == se(s). "
+              "(loop invariant 2*flips + switches + run == mismatches of the switch encodings so far), with the labelling-invariance lemma se(complement(s)) == se(s); BedCreator.records yields exactly one BED record per adjacent pair of variants on which the two switch "
+              "encodings differ, in order, with the 1-based positions of the two variants (so the number of records is the diploid switch error count). "
               "Bounded stand-in: compare_block on all diploid pairs of strings up to length 7 and on ploidy-3/4 blocks up to 5 positions against the definition by "
               "minimisation over haplotype correspondences (brute force), every haplotype relabelling; run_compare on generated pairs of phased VCFs against an "
               "independent recount (TSV, BED, longest-block agreement).")
